@@ -250,9 +250,9 @@ SCloseChan ==
 (* the reader goroutines: fifoStream.stream, socketStream.handleConn, dgramStream.stream *)
 
 \* cancel.go SetReadDeadlineOnDone: <-ctx.Done(); d.SetReadDeadline(time.Now())
+CanDeadline(c) == ~MUT_NoReadDeadline /\ cancelled /\ ~dl[c] /\ h[c].pc \notin {"none", "done"}
 SDeadline(c) ==
-  /\ ~MUT_NoReadDeadline
-  /\ cancelled /\ ~dl[c] /\ h[c].pc \notin {"none", "done"}
+  /\ CanDeadline(c)
   /\ dl' = [dl EXCEPT ![c] = TRUE]
   /\ UNCHANGED <<cfg, wst, nwr, inflight, q, lis, pend, acc, closer, started, connWg, h, buf,
                  cancelled, out, chanClosed, panic, wr, landed, rd, zeroRead, dropped>>
@@ -298,16 +298,18 @@ EofVisible(c) ==
   /\ q[c] = <<>>
   /\ IF Sock THEN wst[c] \in {"closed", "failed"} /\ ~inflight[c].on
              ELSE \A w \in Writers : wst[w] # "open"
+CanEof(c) == /\ ~Dgram /\ h[c].pc = "read" /\ ~dl[c] /\ EofVisible(c)
+             /\ Sock \/ h[c].got \/ MUT_FifoEndsOnStartupEof
 SReadEof(c) ==
-  /\ ~Dgram /\ h[c].pc = "read" /\ ~dl[c] /\ EofVisible(c)
-  /\ Sock \/ h[c].got \/ MUT_FifoEndsOnStartupEof
+  /\ CanEof(c)
   /\ h' = [h EXCEPT ![c] = [@ EXCEPT !.pc = "fin"]]
   /\ UNCHANGED <<cfg, wst, nwr, inflight, q, lis, pend, acc, closer, started, connWg, buf, dl,
                  cancelled, out, chanClosed, panic, wr, landed, rd, zeroRead, dropped>>
 
 \* Read returned an i/o timeout because the deadline has passed (nothing is read any more)
+CanTimeout(c) == h[c].pc = "read" /\ dl[c]
 SReadTimeout(c) ==
-  /\ h[c].pc = "read" /\ dl[c]
+  /\ CanTimeout(c)
   /\ h' = [h EXCEPT ![c] = [@ EXCEPT !.pc = "fin"]]
   /\ UNCHANGED <<cfg, wst, nwr, inflight, q, lis, pend, acc, closer, started, connWg, buf, dl,
                  cancelled, out, chanClosed, panic, wr, landed, rd, zeroRead, dropped>>
@@ -351,8 +353,9 @@ SFinishSend(c, key) ==
                  cancelled, chanClosed, wr, landed, rd, zeroRead, dropped>>
 
 \* deferred, after Finish: sock wg.Done(); fifo/dgram close(lines); cancel()
+CanExit(c) == h[c].pc = "flush" /\ (MUT_FinishSkipped \/ \A key \in KeysOf(c) : buf[key] = <<>>)
 SExit(c) ==
-  /\ h[c].pc = "flush" /\ (MUT_FinishSkipped \/ \A key \in KeysOf(c) : buf[key] = <<>>)
+  /\ CanExit(c)
   /\ h' = [h EXCEPT ![c] = [@ EXCEPT !.pc = "done"]]
   /\ connWg' = IF Sock THEN connWg - 1 ELSE connWg
   /\ chanClosed' = IF Sock THEN chanClosed ELSE TRUE
